@@ -56,6 +56,8 @@ def execute(cfgs, parallel=None, timeout=240, env_extra=None, label='run'):
         it.conv = traceconv.Conv(r)
         it.hier = it.conv.hier()
         it.ddmin = it.conv.ddmin()
+        # last: the numbering of the inputs is complete then
+        it.session = it.conv.session()
         return it
 
     with ThreadPoolExecutor(parallel) as ex:
@@ -71,8 +73,13 @@ def validate(rep, items):
                              [it.hier for it in hs])
     dv = tracecheck.validate('TraceDdmin', 'TraceDdmin.cfg',
                              [it.ddmin for it in ds])
+    ss = [it for it in items if getattr(it, 'session', None) is not None]
+    sv = tracecheck.validate('TraceSession', 'TraceSession.cfg',
+                             [it.session for it in ss])
     for it in items:
-        it.hier_v = it.ddmin_v = None
+        it.hier_v = it.ddmin_v = it.session_v = None
+    for it, v in zip(ss, sv):
+        it.session_v = v
     st = tr = 0
     for it, v in zip(hs, hv):
         it.hier_v = v
@@ -110,7 +117,9 @@ def trace_violations(rep, it, clauses=None, prefix=''):
     only rejections whose clause is in this set are this property's."""
     n = 0
     for strat, v, rec in (('hier', it.hier_v, it.hier),
-                          ('ddmin', it.ddmin_v, it.ddmin)):
+                          ('ddmin', it.ddmin_v, it.ddmin),
+                          ('session', getattr(it, 'session_v', None),
+                           getattr(it, 'session', None))):
         if v is None or v[0] == 'accept':
             continue
         if v[0] == 'reject':
